@@ -199,6 +199,7 @@ def run_shard(spec, ctx):
         return
     r = random.Random(ctx.seed * 1000003 + 303 + spec['sub'])
     gen = D.Gen(r)
+    gen.zoneless = 0.3
     for i in range(spec['n']):
         k = r.choice([1, 1, 1, 1, 2, 3, 0]) if i % 5 == 0 else 1
         ns = []
